@@ -94,7 +94,7 @@ func perturbsFor(v Variant) (quote []string, direct []string) {
 		if !v.Loosen {
 			q = append(q, "qsrc", "qsport")
 		}
-		return q, []string{"sport", "dport", "sackEdge", "sackBelow"}
+		return q, []string{"sport", "dport", "sackEdge", "sackBelow", "sackStray"}
 	}
 	return nil, nil
 }
@@ -366,6 +366,11 @@ func genGarbage(rng *rand.Rand, v Variant, c *sim.Call, from string, atDest bool
 		r.Garbage = fmt.Sprintf("set:%d:%d", off, pick(rng, 0, 0xff, 0x0f, 0xf0, 0x45, 0x60, 0x4f, 0x40))
 	default:
 		r.Garbage = fmt.Sprintf("append:%d", pick(rng, 1, 7, 500, 1200, 2000))
+	}
+	if v.Entry == "sack" && atDest && !foreign && chance(rng, 0.35) {
+		// malformed below the level byte damage reaches: a well-delimited SACK option whose data is
+		// not a whole number of blocks
+		r.Garbage, r.Perturb, r.K = "", "sackStray", between(rng, 1, 7)
 	}
 	return r
 }
